@@ -51,8 +51,16 @@ def _expand(job):
     out = []
     for op in spec.ops(S0):
         S = replay(spec, init, hist)
-        v = spec.step(S, op)
-        out.append((core.digest(spec.key(S)), op, [tuple(x[:3]) + (core.jsonable(x[3]), core.jsonable(x[4])) for x in v] if v else None))
+        try:
+            v = spec.step(S, op)
+            kd = core.digest(spec.key(S))
+        except RecursionError as ex:
+            # the structure reached cannot even be read (a box containing itself, unbounded nesting): that is an
+            # ill-formed state produced by the code under test on an in-domain history
+            v = [(op[0], "exception:RecursionError-while-observing-the-state", {"site:" + core.exc_site(ex)},
+                  None, core.tb_tail(ex))]
+            kd = core.digest(("unreadable", repr((init, hist, op))))
+        out.append((kd, op, [tuple(x[:3]) + (core.jsonable(x[3]), core.jsonable(x[4])) for x in v] if v else None))
     return out
 
 
